@@ -2,6 +2,7 @@ package env
 
 import (
 	"context"
+	"fmt"
 
 	goat "github.com/avos-io/goat"
 	"github.com/avos-io/goat/vrt/vsched"
@@ -47,4 +48,84 @@ func NewDirect(impl SvcServer, o DirectOpts) *Direct {
 		d.CC = goat.NewClientConn(d.Pipe.A, "cli", "srv", o.DialOpts...)
 	}
 	return d
+}
+
+// ProxyTopo is clients -- proxy -- demux(by source) -- one Serve per client.
+type ProxyTopo struct {
+	Tap         *Tap
+	Proxy       *goat.Proxy
+	Ctx         context.Context
+	Cancel      context.CancelFunc
+	CPipes      []*Pipe
+	CCs         []*goat.ClientConn
+	SPipe       *Pipe
+	Demux       *goat.Demux
+	Srv         *goat.Server
+	Disconnects []string
+	Dialed      []string
+	ProxyDone   bool
+	DemuxDone   bool
+	Serves      int
+	ServesDone  int
+	DialErr     map[string]error
+	Extra       map[string]*Pipe // further dialable raw peers by name (proxy side = A)
+	SlowDial    map[string]chan struct{} // dialling these names blocks until the channel is closed
+}
+
+type ProxyOpts struct {
+	Clients     int
+	PreAttach   bool // server attached with AddClient instead of dialled on demand
+	Cap         int
+	Intercept   goat.RpcIntercepter
+	NoServer    bool
+	NoGoatPeers bool // raw pipes only: clients are scripted (CCs stay nil)
+}
+
+func NewProxyTopo(impl SvcServer, o ProxyOpts) *ProxyTopo {
+	t := &ProxyTopo{Tap: &Tap{}, DialErr: map[string]error{}, Extra: map[string]*Pipe{}}
+	t.Ctx, t.Cancel = context.WithCancel(context.Background())
+	t.SPipe = NewPipe(t.Tap, PipeOpts{Name: "srv", Cap: o.Cap})
+	dial := func(id string) (goat.RpcReadWriter, error) {
+		t.Dialed = append(t.Dialed, id)
+		if ch := t.SlowDial[id]; ch != nil {
+			<-ch
+		}
+		if err := t.DialErr[id]; err != nil {
+			return nil, err
+		}
+		if id == "srv" && !o.NoServer {
+			return t.SPipe.A, nil
+		}
+		if p := t.Extra[id]; p != nil {
+			return p.A, nil
+		}
+		return nil, ErrClosed
+	}
+	t.Proxy = goat.NewProxy(t.Ctx, "proxy", dial, o.Intercept, func(id string, reason error) {
+		t.Disconnects = append(t.Disconnects, id)
+	})
+	if !o.NoServer {
+		t.Srv = goat.NewServer("srv")
+		t.Srv.RegisterService(&ServiceDesc, impl)
+		t.Demux = goat.NewDemux(t.Ctx, t.SPipe.B, func(r *Rpc) string { return r.GetHeader().GetSource() }, func(rw goat.RpcReadWriter) {
+			t.Serves++
+			t.Srv.Serve(t.Ctx, rw)
+			t.ServesDone++
+		})
+		vsched.GoNamed("demux", func() { t.Demux.Run(); t.DemuxDone = true })
+		if o.PreAttach {
+			t.Proxy.AddClient("srv", t.SPipe.A)
+		}
+	}
+	for i := 0; i < o.Clients; i++ {
+		name := fmt.Sprintf("cli%d", i)
+		p := NewPipe(t.Tap, PipeOpts{Name: name, Cap: o.Cap})
+		t.CPipes = append(t.CPipes, p)
+		t.Proxy.AddClient(name, p.B)
+		if !o.NoGoatPeers {
+			t.CCs = append(t.CCs, goat.NewClientConn(p.A, name, "srv"))
+		}
+	}
+	vsched.GoNamed("proxy", func() { t.Proxy.Serve(); t.ProxyDone = true })
+	return t
 }
